@@ -6,10 +6,12 @@
    sorts); Spec/C04_negotiation.v is the statement of the property.  [rs] ranges over ALL lists of
    (lower-cased) header elements and [offers] over ALL offer sequences. *)
 From Coq Require Import ZArith NArith List Bool Permutation Sorted String.
+Require Import Webob.Lib.Rx Webob.Gen.C03_regexes Webob.Model.C03_scan Webob.Proofs.C03_scan
+               Webob.Proofs.C03_accept_scan Webob.Proofs.C19_quote.
 Require Import Webob.Lib.Val Webob.Lib.PyStr Webob.Lib.C04_Sort Webob.Model.C04_negotiation
                Webob.Spec.C04_negotiation Webob.Proofs.C04_sort Webob.Proofs.C04_accept
                Webob.Proofs.C04_simple Webob.Proofs.C04_facts Webob.Proofs.C04_parse
-               Webob.Gen.C04_tables Webob.Proofs.C04_tables.
+               Webob.Gen.C04_tables Webob.Proofs.C04_tables Webob.Proofs.C04_offer_full.
 Import ListNotations.
 
 (* AcceptValidHeader.acceptable_offers = the offers that parse as concrete media types, first
@@ -134,34 +136,81 @@ Theorem C04_parse_offer_normal : forall s t st ps, parse_offer_str s = Some (t, 
 Proof. exact parse_offer_str_normal. Qed.
 Print Assumptions C04_parse_offer_normal.
 
-(* ... and on type "/" subtype *( ";" name "=" token ) it is exactly the lower-cased components.
-   _partial: optional whitespace and quoted-string values are covered by the correspondence and the
-   oracle only, not by this theorem. *)
-Theorem C04_parse_render_partial : forall t st ps,
-  token t -> token st -> t <> star -> st <> star -> Forall plain_param ps ->
-  parse_offer_str (render_offer t st ps) = Some (lower t, lower st, lower_names ps).
-Proof. exact parse_render. Qed.
-Print Assumptions C04_parse_render_partial.
+(* ---- parse_offer is exact.  Rendered syntax (C03): an offer text is
+        type "/" subtype *( OWS ";" OWS name "=" ( token / quoted-string ) )
+   with [offer_ok]: type, subtype, names are tokens, no name is q/Q, OWS is any run of SP/HTAB, a quoted
+   value is DQUOTE *( qdtext / quoted-pair ) DQUOTE (so commas, semicolons, escaped quotes inside). ---- *)
 
-(* type, subtype and parameter names are case-insensitive (same fragment) *)
-Theorem C04_offer_case_insensitive_partial : forall t st ps t' st' ps',
-  token t -> token st -> t <> star -> st <> star -> Forall plain_param ps ->
-  token t' -> token st' -> t' <> star -> st' <> star -> Forall plain_param ps' ->
-  lower t = lower t' -> lower st = lower st' -> lower_names ps = lower_names ps' ->
-  parse_offer_str (render_offer t st ps) = parse_offer_str (render_offer t' st' ps').
+(* on EVERY such text parse_offer returns the lower-cased type/subtype, the lower-cased parameter names and
+   the unquoted, otherwise unchanged, values, in order - unless type or subtype is the wildcard *)
+Theorem C04_parse_render : forall ty sub ps, offer_ok ty sub ps ->
+  parse_offer_str (offer_text ty sub ps) =
+  if str_eqb ty star || str_eqb sub star then None else Some (offer_norm ty sub ps).
+Proof. exact parse_offer_rendered. Qed.
+Print Assumptions C04_parse_render.
+
+(* and it succeeds on nothing else *)
+Theorem C04_parse_offer_exact : forall s r,
+  parse_offer_str s = Some r <->
+  exists ty sub ps, offer_ok ty sub ps /\ s = offer_text ty sub ps /\
+                    ty <> star /\ sub <> star /\ r = offer_norm ty sub ps.
+Proof. exact parse_offer_exact. Qed.
+Print Assumptions C04_parse_offer_exact.
+
+(* the texts in question are exactly those of the REGENERATED media_type_compiled_re, for every string
+   (C03's verified language equality with the RFC 7231 ABNF + no class of the pattern contains LF) *)
+Theorem C04_media_type_regex_exact : forall s,
+  rmatch gen_media_type s = true <-> exists ty sub ps, offer_ok ty sub ps /\ s = offer_text ty sub ps.
+Proof. exact media_type_regex_exact. Qed.
+Print Assumptions C04_media_type_regex_exact.
+
+Theorem C04_parse_offer_accepts : forall s, rmatch gen_media_type s = true ->
+  exists ty sub ps, offer_ok ty sub ps /\ s = offer_text ty sub ps /\
+    parse_offer_str s = if str_eqb ty star || str_eqb sub star then None else Some (offer_norm ty sub ps).
+Proof. exact parse_offer_accepts. Qed.
+Print Assumptions C04_parse_offer_accepts.
+
+Theorem C04_parse_offer_rejects : forall s, rmatch gen_media_type s = false -> parse_offer_str s = None.
+Proof. exact parse_offer_rejects. Qed.
+Print Assumptions C04_parse_offer_rejects.
+
+(* type, subtype and parameter names are case-insensitive; parameter values are compared exactly (after
+   unquoting): two offers parse alike IFF these agree *)
+Theorem C04_offer_case_insensitive : forall ty sub ps ty' sub' ps',
+  offer_ok ty sub ps -> offer_ok ty' sub' ps' -> ty <> star -> sub <> star -> ty' <> star -> sub' <> star ->
+  (parse_offer_str (offer_text ty sub ps) = parse_offer_str (offer_text ty' sub' ps') <->
+   lower ty = lower ty' /\ lower sub = lower sub' /\
+   map (fun p => (lower (p_name p), unquote_value (p_val p))) ps =
+   map (fun p => (lower (p_name p), unquote_value (p_val p))) ps').
 Proof. exact offer_case_insensitive. Qed.
-Print Assumptions C04_offer_case_insensitive_partial.
+Print Assumptions C04_offer_case_insensitive.
+
+(* the unquoting step of _parse_media_type_params is C03's unquote_value, which inverts webob's own quoting
+   (C19_quote_inverse) for every string *)
+Theorem C04_unquote_param : forall nv, unquote_param nv = (fst nv, unquote_value (snd nv)).
+Proof. exact unquote_param_eq. Qed.
+Print Assumptions C04_unquote_param.
+
+Theorem C04_unquote_inverts_quote : forall n v, unquote_param (n, escape_and_quote v) = (n, v).
+Proof. intros n v. rewrite unquote_param_eq. cbn [fst snd]. now rewrite quote_inverse. Qed.
+Print Assumptions C04_unquote_inverts_quote.
 
 Local Open Scope string_scope.
 
-(* the hypotheses are satisfiable: "TEXT/Html;Level=1" *)
+(* the hypotheses are satisfiable:  TEXT/Html ; Level=DQUOTE a BACKSLASH DQUOTE b DQUOTE  (OWS around the semicolon,
+   a quoted-pair in the value) *)
 Example C04_parse_render_ex :
-  let t := H "54455854" in let st := H "48746d6c" in let ps := [(H "4c6576656c", H "31")] in
-  token t /\ token st /\ t <> star /\ st <> star /\ Forall plain_param ps /\
-  parse_offer_str (render_offer t st ps) = Some (H "74657874", H "68746d6c", [(H "6c6576656c", H "31")]).
+  let ty := H "54455854" in let sub := H "48746d6c" in
+  let ps := [mkP (H "20") (H "20") (H "4c6576656c") (H "22615c226222")] in
+  offer_ok ty sub ps /\ ty <> star /\ sub <> star /\
+  parse_offer_str (offer_text ty sub ps) = Some (H "74657874", H "68746d6c", [(H "6c6576656c", H "612262")]).
 Proof.
-  cbv zeta. repeat split; try discriminate; try (vm_compute; reflexivity).
-  constructor; [|constructor]. repeat split; try discriminate; vm_compute; reflexivity.
+  cbv zeta. split; [|split; [discriminate|split; [discriminate|vm_compute; reflexivity]]].
+  split; [split; [discriminate|repeat constructor]|]. split; [split; [discriminate|repeat constructor]|].
+  constructor; [|constructor]. split; [repeat constructor|]. split; [repeat constructor|].
+  split; [split; [discriminate|repeat constructor]|]. split; [exact I|].
+  right. eexists. split; [reflexivity|].
+  apply qb_text; [reflexivity|]. apply qb_pair; [reflexivity|]. apply qb_text; [reflexivity|]. apply qb_end.
 Qed.
 
 (* the hypotheses are satisfiable: "gzip;q=0.5" and "IDENTITY" / "*;q=0" *)
